@@ -4,4 +4,4 @@ Extraction Language OCaml.
 Set Extraction Output Directory ".".
 Extraction "c06_x.ml" Encoder_run Encoder_run_legacy Encoder_unpack_validate Encoder_cpp_crc3 Encoder_cpp_crc1
   Encoder_cpp_is_valid Encoder_judge scan crc32_from crc32_spec_from Encoder_xor_bytes parse_header
-  MAX_EXPECTED_SIZE_BYTES CPP_MAX_MESSAGE_SIZE_BYTES Encoder_steps1_fast Encoder_calculate_crc Encoder_validate_crc SYNC0 SYNC1 PROTOCOL_VERSION.
+  MAX_EXPECTED_SIZE_BYTES CPP_MAX_MESSAGE_SIZE_BYTES Encoder_steps1_fast Encoder_calculate_crc Encoder_validate_crc Encoder_unpack_into Encoder_pack_plain Encoder_pack_payload Encoder_new_header SYNC0 SYNC1 PROTOCOL_VERSION.
